@@ -9,7 +9,10 @@ import fcntl
 REPO = os.environ.get('VERIF_REPO', '/repo')
 VERIF = os.path.dirname(os.path.dirname(os.path.dirname(os.path.abspath(__file__))))
 CACHE = os.path.join(VERIF, '.cache')
-SCRATCH = os.environ.get('VERIF_SCRATCH', '/var/tmp/deltio-verif')
+# scratch copies of the tree are per checkout of /verif (like CACHE and its lock files): two checkouts running at the
+# same time (e.g. a `vp run` worktree next to /verif) must never share a scratch source directory
+SCRATCH = os.environ.get('VERIF_SCRATCH') or ('/var/tmp/deltio-verif' if VERIF == '/verif' else
+                                             '/var/tmp/deltio-verif-' + hashlib.sha1(VERIF.encode()).hexdigest()[:10])
 TRACKED = ('src', 'proto', 'build.rs', 'Cargo.toml', 'Cargo.lock')
 
 
